@@ -185,6 +185,41 @@ def files_stage(rep, rng, n):
             rep.violation("stream files: " + d, {"case": {"files": c}, "observed": obs, "model": mres.get(i)})
 
 
+def stream_file_cases(rng, n):
+    """multi-document layer FILES in mixed formats: the documents carry a numeric id of any integer width, the layers above select
+    their targets by `$match` on that number (plain and inverted) - pattern and target come from different readers"""
+    import fscheck
+    out = []
+    for _ in range(n):
+        pool = rng.sample([5, 6, 7, 2**31 - 1, 2**31, 5000000000, 6000000000, -2**31 - 1, 2**53 + 1, 2**63 - 1], 3)
+        base = [{"kind": rng.choice(["A", "B"]), "num": pool[i], "v": i} for i in range(rng.randint(2, 3))]
+        layers = [base]
+        for li in range(1, rng.randint(2, 3)):
+            docs = []
+            for di in range(rng.randint(1, 2)):
+                target = rng.choice(base)
+                d = {"w%d%d" % (li, di): rng.choice([1, "x", 2**40])}
+                r = rng.random()
+                if r < 0.5:
+                    d["$match"] = {"num": target["num"]}
+                elif r < 0.7:
+                    d["$match"] = {"num": target["num"], "$invert": True}
+                elif r < 0.8:
+                    d["$match"] = {"num": 424242424242}      # matches nothing
+                docs.append(d)
+            layers.append(docs)
+        name, layout, top = "s", {}, None
+        for i, docs in enumerate(layers):
+            if i:
+                name += ".l%d" % i
+            ext = rng.choice(["json", "jsonl", "yaml", "yml", "toml"])
+            layout[f"{name}.{ext}"] = {"fmt": ext, "docs": docs}
+            top = f"{name}.{ext}"
+        out.append({"layout": layout, "opts": {"inputs": [top], "format": "json"},
+                    "meta": {"kind": "stream:" + "+".join(sorted({f.rsplit(".", 1)[1] for f in layout}))}})
+    return out
+
+
 def run(rep):
     standard_run(rep, PID, gen_case, nontrivial, "document targeting / per-document result differs", 3000, 150000,
                  "base streams of 1-4 documents + 1-3 further layers of 1-3 documents (file-style parent links, occasionally a "
@@ -193,6 +228,10 @@ def run(rep):
                  "the separation monitor (`alias` step) counts containers shared between documents; non-trivial = >= 3 documents merged")
     import random
     files_stage(rep, random.Random(rep.seed + 31), 300 if rep.tier == "quick" else 12000)
+    if len(rep.violations) < 5:
+        import fscheck
+        fscheck.file_chain_stage(rep, stream_file_cases(random.Random(rep.seed + 57), 150 if rep.tier == "quick" else 4000),
+                                 "multi-document layer files in mixed formats")
     # separation monitor summary
     rep.assumptions.append("value-semantic model is a faithful abstraction of the Go heap only while no container is shared between documents; the `alias` step measures this")
 
